@@ -336,6 +336,80 @@ def run_live(tier, seed, log):
     return {"coverage": cov, "violations": violations}
 
 
+# --------------------------------------------------------------------------- C18: order of results on one connection
+
+def gen_order_scenarios(seed, n):
+    """one connection pipelines commands that each carry a sequence token; every result that names a token must arrive
+    in the order of the commands (first sentence of C18), on the sender's own socket and on a peer's socket"""
+    r = random.Random(seed * 53 + 11)
+    sc = []
+    for i in range(n):
+        cfg = ["cfg name irc.test"]
+        setup = reg(1, "a") + reg(2, "b") + [L(1, "JOIN #c"), L(2, "JOIN #c")]
+        k = r.choice([6, 10, 16])
+        cmds = []
+        for j in range(k):
+            t = "tok%02dx" % j
+            cmds.append(L(1, r.choice(["TOPIC #c :%s" % t, "PING %s" % t, "PRIVMSG a :%s" % t, "PRIVMSG b :%s" % t,
+                                        "PRIVMSG #c :%s" % t, "MODE #c +k %s" % t, "WHOIS %s" % t, "JOIN #%s" % t,
+                                        "KICK #c %s" % t, "NOTICE a :%s" % t, "TOPIC #c :%s" % t, "PING %s" % t,
+                                        "INVITE %s #c" % t, "NOTICE b :%s" % t])))
+        sc.append(("order-%d-%d" % (seed, i), cfg, setup, {1: cmds}))
+    return sc
+
+
+def run_order(tier, seed, log):
+    n = 12 if tier == "quick" else 200
+    sc = gen_order_scenarios(seed, n)
+    path = runner.WORK + "/order-%d.ops" % seed
+    with open(path, "w") as f:
+        for name, cfg, setup, burst in sc:
+            f.write("seq %s\n" % name)
+            for l in cfg:
+                f.write(l + "\n")
+            f.write("begin\nsetup\n")
+            for o in setup:
+                f.write(o + "\n")
+            f.write("burst\n")
+            for c in sorted(burst):
+                for o in burst[c]:
+                    f.write(o + "\n")
+            f.write("endburst\nend\n")
+    viol = []
+    n_lines = 0
+    for workers in ([1, 4] if tier == "quick" else [1, 2, 4, 8]):
+        ri = runner.sh([runner.HARNESS, "conc", path], timeout=3000, env={"VERIF_WORKERS": str(workers)})
+        if ri.returncode != 0:
+            raise runner.BuildError("conc mode failed: " + ri.stderr[-800:])
+        impl = parse_conc_impl(ri.stdout)
+        for name, cfg, setup, burst in sc:
+            im = impl.get(name)
+            if im is None:
+                continue
+            for c in (1, 2):
+                seq = []
+                for l in im["outs"].get(c, []):
+                    m = re.search(r"tok(\d\d)x", l)
+                    if m:
+                        seq.append((int(m.group(1)), l))
+                n_lines += len(seq)
+                for (i1, l1), (i2, l2) in zip(seq, seq[1:]):
+                    if i2 < i1:
+                        if not viol:
+                            viol.append(("conc:result-order", {
+                                "what": "results of one connection's pipelined commands did not arrive in the order of the commands "
+                                        "(socket of connection %d)" % c,
+                                "cfg": cfg, "setup": runner.render_ops(setup), "burst": {"1": runner.render_ops(burst[1])},
+                                "out_of_order": [l1[:120], l2[:120]],
+                                "observed": [l[:100] for _, l in seq][:40], "workers": workers, "scenario": name}))
+                        break
+    cov = {"order_scenarios": len(sc), "order_lines_checked": n_lines,
+           "order_rule": "real run_server; one connection pipelines 6-16 commands carrying sequence tokens (TOPIC, PING, PRIVMSG to itself / a peer "
+                         "/ the channel, MODE, WHOIS, JOIN, KICK, INVITE, NOTICE); on its own socket and on the peer's socket the tokens must "
+                         "appear in command order"}
+    return {"coverage": cov, "violations": viol}
+
+
 # --------------------------------------------------------------------------- directed scenarios
 
 def L(c, s):
@@ -976,6 +1050,9 @@ def run(pid, tier, seed, log):
                                    "the lock/await structure of a handler (or the gate/dispatch table) differs from the one the atomic sections of Irc/Conc.lean were written from")
         out["coverage"]["lock_map"] = info
         out["violations"] += viol
+        o4 = run_order(tier, seed, log)
+        out["coverage"].update(o4["coverage"])
+        out["violations"] += o4["violations"]
     if pid == "C01":
         # delivery layer under backlog: real server, pipelined floods; every copy must arrive exactly once
         out = run_conc(tier, seed, log, kinds=["flood"], n_override=(4 if tier == "quick" else 40))
